@@ -184,11 +184,29 @@ def judge(fam, case, cfg, w, res):
                     mx_, my_ = sum(xs) / n, sum(ys) / n
                     sxy = abs(sum((a_ - mx_) * (b_ - my_) for a_, b_ in zip(xs, ys)))
                     u = Fr(1, 1 << prog['type']['f'])
-                    tol = u * (64 + 32 * (1 + sxy))
+                    sxx = sum((a_ - mx_) ** 2 for a_ in xs)
+                    syy = sum((b_ - my_) ** 2 for b_ in ys)
+                    # conditioning: sxx, sxy, syy are themselves only known to about 2 units (one truncation each; the
+                    # common shift of the rounded means cancels to first order and enters as n*dx*dy), and the divisor's
+                    # error is amplified by 1/divisor.  For a divisor < 1 the division error itself also scales with
+                    # 1/divisor (the relative, not absolute, precision of the Newton reciprocal: finding fxp-div-small-divisor)
+                    dxb = (abs(sum(xs)) / 2 + 1) * u
+                    dyb = (abs(sum(ys)) / 2 + 1) * u
+                    e_in = 2 * u + n * dxb * dyb
+                    if fn == 'linear_regression':
+                        d = sxx
+                        q = abs(el[0])
+                        cond = (q + 1) * e_in / max(sxx - e_in, u)
+                    else:
+                        d = Fr(math.sqrt(float(sxx) * float(syy)))
+                        q = abs(Fr(e))
+                        cond = (q + 1) * ((e_in + 4 * u * Fr(math.sqrt(float(sxx)))) / max(sxx - e_in, u) +
+                                          (e_in + 4 * u * Fr(math.sqrt(float(syy)))) / max(syy - e_in, u))
+                    tol = u * (64 + 32 * (1 + sxy)) * max(1, 1 / d) + cond
                     if fn == 'linear_regression' and e is el[1]:
-                        tol = tol * (1 + abs(mx_)) + u * (8 + 8 * n * max(abs(v) for v in ys))
+                        tol = tol * (1 + abs(mx_)) + u * (8 + 8 * n * max(abs(v) for v in ys)) + (q + 1) * (dxb + dyb)
                     ok = abs(float(g) - float(e)) <= float(tol)
-                    detail = f'tolerance {float(tol)} from the division bound'
+                    detail = f'tolerance {float(tol)} from the division bound and the conditioning of the quotient'
                 else:
                     tol = fxp_tol(fn, e, prog)
                     ok = abs(g - Fr(e)) <= tol
